@@ -363,10 +363,13 @@ def _expr_classes():
     return out
 
 
-def _children_complete(m, cname, init, sfx):
+def _children_complete(m, cname, init, sfx, prop="C19", what="children"):
+    """what == 'children': children() covers evaluate (C19); what == 'frame': evaluate leaves the
+    expression object -- its fields and the lists they hold -- exactly as it found them (C17)"""
     params = [(a.arg, ast.unparse(a.annotation) if a.annotation else None) for a in (init.args.args[1:] + init.args.kwonlyargs)] if init is not None else []
+    title = f"{cname}.children() covers evaluate{sfx}()" if what == "children" else f"{cname}.evaluate{sfx}() does not write the expression"
 
-    @contract(f"{m}:{cname}.evaluate{sfx}", prop="C19", name=f"{cname}.children() covers evaluate{sfx}()")
+    @contract(f"{m}:{cname}.evaluate{sfx}", prop=prop, name=title)
     def cc(c):
         std_globals(c)
         opts = []
@@ -422,7 +425,21 @@ def _children_complete(m, cname, init, sfx):
                         outs.append((s1, r1))
                         continue
                     kids = eng.concrete_items(s1, r1)
+
+                    def snapshot(s_):
+                        snap = {}
+                        for fn_, fv in s_.deref(obj).fields.items():
+                            spine = eng.concrete_items(s_, fv) if isinstance(fv, VRef) and isinstance(s_.deref(fv), HList) else None
+                            snap[fn_] = (fv, tuple(spine) if spine is not None else None)
+                        return snap
+                    before = snapshot(s1)
                     for s2, r2 in eng.call_function(s1, func, [ctx], {}, self_val=obj):
+                        if what == "frame":
+                            after = snapshot(s2)
+                            changed = sorted(k for k in set(before) | set(after) if before.get(k) != after.get(k))
+                            s2.ghost["__cfg__"] = (label, changed)
+                            outs.append((s2, Ret(VBool(z3.BoolVal(not changed)))))
+                            continue
                         evald = [e[1] for e in s2.log if e[0] == "evaluated"]
                         def covered(x):
                             if kids is None:
@@ -435,7 +452,7 @@ def _children_complete(m, cname, init, sfx):
                         outs.append((s2, Ret(VBool(z3.BoolVal(not missing)))))
             return outs
         c.entry = entry
-        c.ensures("every-sub-expression-an-evaluation-evaluates-is-returned-by-children()", lambda r: r.value.t)
+        c.ensures("every-sub-expression-an-evaluation-evaluates-is-returned-by-children()" if what == "children" else "evaluation-leaves-the-parsed-expression-unchanged(fields-and-their-lists)", lambda r: r.value.t)
         c.assume_note("sub-expressions are opaque Expression stubs; a Filter stub evaluates (and lists as its children) one argument expression -- Filter.children/evaluate_args have their own contract below")
         c.replay("code", code=REPLAY_CHILDREN)
 
